@@ -2645,7 +2645,7 @@ class x86_mn(x86_mn_base):
                     size = [self.opmode, x86_afs.u08][m.modifs[w8]]
                     dib_out.append({x86_afs.ad:True, x86_afs.size:size, x86_afs.imm:d})
                 elif dib in [r_cl, r_dx]:
-                    dib_out.append(dib)
+                    dib_out.append(dict(dib))
 
                 elif dib in segm_regs:
                     size = self.opmode
